@@ -1,4 +1,5 @@
 import Varpulis.Lemmas.Simulate
+import Std.Data.String.ToInt
 /-!
 # C18 — multi-worker `varpulis simulate` gives the same results as a single worker
 
@@ -98,6 +99,35 @@ theorem cli_assignment_respects_engine_key_of_injective (disp : Val → String) 
   simp only [engineKey, hv, hv'] at h
   have := hinj v v' sv sv' h
   simp [cliWorker, cliKey, hv, hv', this]
+
+/-- decimal printing of integers is injective (`Value::Int(i).to_partition_key()` is
+`i.to_string()`: an optional `-` and the decimal digits without leading zeros, as Lean's `toString`) -/
+theorem int_toString_injective (a b : Int) (h : toString a = toString b) : a = b :=
+  Int.repr_injective (by simpa [Int.toString_eq_repr] using h)
+
+/-- the premise "one key type" for integer keys: events whose key field holds integers and that
+share the engine key get the same worker, whatever the hash function and worker count -/
+theorem cli_assignment_respects_engine_key_int (disp : Val → String) (hash : Val ⊕ String → Nat)
+    (field : String) (n : Nat) (e e' : Ev)
+    (hs : ∃ i, e.get field = some (.int i)) (hs' : ∃ i, e'.get field = some (.int i))
+    (h : engineKey disp field e = engineKey disp field e') :
+    cliWorker hash field n e = cliWorker hash field n e' := by
+  obtain ⟨i, hi⟩ := hs
+  obtain ⟨j, hj⟩ := hs'
+  refine cli_assignment_respects_engine_key_of_injective disp hash field n (fun v => ∃ k, v = .int k)
+    ?_ e e' ⟨_, hi, i, rfl⟩ ⟨_, hj, j, rfl⟩ h
+  rintro v v' ⟨a, rfl⟩ ⟨b, rfl⟩ hk
+  simp only [toPartitionKey] at hk
+  rw [int_toString_injective a b hk]
+
+/-- integer-keyed events, hash partitioning, a key-partitioned engine -/
+theorem simulate_key_partitioned_int (disp : Val → String) (hash : Val ⊕ String → Nat) (field : String)
+    (km : Machine Ev O τ) (n : Nat) (hn : 0 < n) (init : String → τ) (es : List Ev)
+    (hint : ∀ e : Ev, ∃ i, e.get field = some (Val.int i)) :
+    (multiRun (keyed (engineKey disp field) km) n (cliWorker hash field n) init es).Perm
+      ((keyed (engineKey disp field) km).run init es) :=
+  keyed_workers_same_multiset _ km n _ (fun e => Nat.mod_lt _ hn)
+    (fun e e' h => cli_assignment_respects_engine_key_int disp hash field n e e' (hint e) (hint e') h) init es
 
 /-- outside the premise they need not: `Int 1` and `Str "1"` share the engine key `"1"` but are
 hashed as different values (and a missing field is keyed `"default"` by the engines while the CLI
